@@ -59,7 +59,7 @@ impl SnmpValue<'_> {
                     TAG_OBJECT_DESCRIPTOR => {
                         SnmpValue::ObjectDescriptor(SnmpObjectDescriptor::decode(tail, &hdr)?)
                     }
-                    TAG_REAL => SnmpValue::Real(SnmpReal::decode(i, &hdr)?),
+                    TAG_REAL => SnmpValue::Real(SnmpReal::decode(tail, &hdr)?),
                     //
                     _ => {
                         return Err(Err::Failure(SnmpError::UnsupportedTag(format!(
